@@ -187,8 +187,13 @@ fn known_shape(builtin: &str, class: &str, args: &[V], observed: &V) -> Option<&
         }
         // "".lines().slice(0, 1) is Some("") although "" has no lines
         "StringLines.slice" => {
-            let (V::Str(s), V::Int(0), V::Int(1)) = (&args[0], &args[1], &args[2]) else { return None };
-            (s.is_empty() && *observed == V::some(V::str(""))).then_some("lines_slice_0_1_of_empty")
+            let (V::Str(s), V::Int(i), V::Int(j)) = (&args[0], &args[1], &args[2]) else { return None };
+            if (*i, *j) == (0, 1) {
+                return (s.is_empty() && *observed == V::some(V::str(""))).then_some("lines_slice_0_1_of_empty");
+            }
+            // slice(len, len) of a non-empty text without a final newline is None
+            let n = ops::raw_lines(s).len() as i128;
+            (!s.is_empty() && !s.ends_with('\n') && *i == n && *j == n && *observed == V::none()).then_some("lines_slice_len_len_unterminated")
         }
         _ => None,
     }
@@ -429,6 +434,8 @@ impl Check for C17 {
             "lines_get_char_at_byte" => shape() == Some("lines_get_char_at_byte"),
             // "".lines().slice(0, 1) == Some("")
             "lines_slice_0_1_of_empty" => shape() == Some("lines_slice_0_1_of_empty"),
+            // "a".lines().slice(1, 1) == None
+            "lines_slice_len_len_unterminated" => shape() == Some("lines_slice_len_len_unterminated"),
             _ => false,
         }
     }
